@@ -26,12 +26,74 @@ func rolePath(fn *ssa.Function, p string, roles map[int]string) string {
 			if p == prm.Name() {
 				return role
 			}
-			if strings.HasPrefix(p, prm.Name()+".") {
+			if strings.HasPrefix(p, prm.Name()+".") || strings.HasPrefix(p, prm.Name()+"[") {
 				return role + p[len(prm.Name()):]
 			}
 		}
 	}
 	return p
+}
+
+// mergeRoles: the roles of a merge function's parameters by type, not by position: the first *Config is the
+// destination, the second the source; a []value parameter (when there is no second *Config) is the source's
+// array handed over by the dispatcher (which is checked to pass from.fields.array(), see R01b "source array").
+func mergeRoles(c *Ctx, fn *ssa.Function) map[int]string {
+	roles := map[int]string{}
+	nCfg := 0
+	valueT := c.Named("", "value")
+	for i, p := range fn.Params {
+		switch {
+		case isNamed(derefType(p.Type()), modPath, "Config"):
+			if _, isPtr := p.Type().(*types.Pointer); isPtr {
+				nCfg++
+				if nCfg == 1 {
+					roles[i] = "to"
+				} else if nCfg == 2 {
+					roles[i] = "from"
+				}
+			}
+		}
+	}
+	if nCfg < 2 {
+		for i, p := range fn.Params {
+			if sl, ok := p.Type().Underlying().(*types.Slice); ok && types.Identical(sl.Elem(), valueT) {
+				roles[i] = "from.fields.a"
+				break
+			}
+		}
+	}
+	return roles
+}
+
+func hasRole(roles map[int]string, role string) bool {
+	for _, r := range roles {
+		if r == role {
+			return true
+		}
+	}
+	return false
+}
+
+// sourceArrayArg: a strategy that takes the source's elements as a []value is handed from.fields.array() by the dispatcher.
+func sourceArrayArg(c *Ctx, r *Report, disp, strat *ssa.Function) {
+	idx := -1
+	for i, role := range mergeRoles(c, strat) {
+		if role == "from.fields.a" {
+			idx = i
+		}
+	}
+	if idx < 0 {
+		return
+	}
+	droles := mergeRoles(c, disp)
+	for _, ci := range CallsTo(disp, strat, false) {
+		got := "?"
+		if p, ok := pathOf(ci.Common().Args[idx]); ok {
+			got = rolePath(disp, p, droles)
+		}
+		r.Check(got == "from.fields.a", "R01b", c.FnName(disp), "source array handed to "+strat.Name(), c.Pos(ci.Pos()), "the strategy receives from.fields.array()",
+			"the element list handed to the strategy is not the source's array ("+got+")")
+	}
 }
 
 // pureAccessor: method whose body is `return recv.<field>`; returns the field name.
@@ -108,7 +170,7 @@ func strategySignature(c *Ctx, fn *ssa.Function) strategySig {
 	appendFn := c.Method("", "fields", "append")
 	setAtFn := c.Method("", "fields", "setAt")
 	fieldsT := c.Named("", "fields")
-	roles := map[int]string{1: "to", 2: "from"}
+	roles := mergeRoles(c, fn)
 	isFresh := func(v ssa.Value) *ssa.Alloc {
 		a, ok := v.(*ssa.Alloc)
 		if ok && types.Identical(derefType(a.Type()), fieldsT) {
@@ -315,9 +377,14 @@ func checkC01(c *Ctx, r *Report) {
 	}
 	for _, cl := range []string{"replace", "prepend", "append"} {
 		fn := classTarget[cl]
-		if fn == nil || len(fn.Params) != 3 {
+		if fn == nil {
 			continue
 		}
+		if rl := mergeRoles(c, fn); !hasRole(rl, "to") || !(hasRole(rl, "from") || hasRole(rl, "from.fields.a")) {
+			r.add("R01b", c.FnName(fn), "signature "+cl, c.Pos(fn.Pos()), Undecided, true, "the strategy's parameters do not name a destination config and a source (config or element list)")
+			continue
+		}
+		sourceArrayArg(c, r, arr, fn)
 		sig := strategySignature(c, fn)
 		got := sig.String()
 		if len(sig.appends) == 0 {
@@ -330,7 +397,7 @@ func checkC01(c *Ctx, r *Report) {
 			ok := true
 			Instrs(fn, false, func(in ssa.Instruction) {
 				if st, isSt := in.(*ssa.Store); isSt {
-					if p, okp := pathOf(st.Addr); okp && rolePath(fn, p, map[int]string{1: "to"}) == "to.fields" {
+					if p, okp := pathOf(st.Addr); okp && rolePath(fn, p, mergeRoles(c, fn)) == "to.fields" {
 						for _, a := range sig.appends {
 							if !InstrDominates(a.call, st) {
 								ok = false
@@ -342,7 +409,8 @@ func checkC01(c *Ctx, r *Report) {
 			r.Check(ok, "R01b", c.FnName(fn), "commit after fill "+cl, c.Pos(fn.Pos()), "node assigned after every append", "the destination node is assigned before the new array is completely built")
 		}
 	}
-	if fn := classTarget["merge"]; fn != nil && len(fn.Params) == 3 {
+	if fn := classTarget["merge"]; fn != nil {
+		sourceArrayArg(c, r, arr, fn)
 		mergeStrategyRule(c, r, fn)
 	}
 
@@ -368,7 +436,19 @@ func checkC01(c *Ctx, r *Report) {
 	for _, fn := range famList {
 		own := optionsParam(fn)
 		if own == nil {
-			r.add("R01c", c.FnName(fn), "options parameter", c.Pos(fn.Pos()), Undecided, true, "merge function without *options parameter")
+			// a strategy that merges nothing below itself needs no options: it must not hand any to a nested merge either
+			nested := false
+			for _, ci := range CallsIn(fn, true) {
+				callee := ci.Common().StaticCallee()
+				if callee != nil && (fam[callee] || callee == foo) || ci.Common().IsInvoke() && ci.Common().Method.Name() == "toConfig" {
+					nested = true
+				}
+			}
+			if nested {
+				r.Bad("R01c", c.FnName(fn), "options parameter", c.Pos(fn.Pos()), "a merge function without *options parameter calls a nested merge: the options it passes cannot be the caller's")
+			} else {
+				r.OK("R01c", c.FnName(fn), "options parameter", c.Pos(fn.Pos()), "no *options parameter and no nested merge: nothing to thread")
+			}
 			continue
 		}
 		for _, ci := range CallsIn(fn, true) {
@@ -442,7 +522,7 @@ func derivesFromOwnOpts(v ssa.Value, own *ssa.Parameter, foo *ssa.Function) (boo
 func mergeStrategyRule(c *Ctx, r *Report, fn *ssa.Function) {
 	name := c.FnName(fn)
 	sig := strategySignature(c, fn)
-	roles := map[int]string{1: "to", 2: "from"}
+	roles := mergeRoles(c, fn)
 	if len(sig.setAts) != 1 || len(sig.appends) != 1 {
 		r.add("R01b", name, "signature merge", c.Pos(fn.Pos()), Undecided, true, "index-wise merge is no longer one setAt plus one append ("+sig.String()+"): cannot tell a correct re-implementation from a wrong one")
 		return
